@@ -93,6 +93,13 @@ def check_fifo(prop, tier, seed, replay):
         gdist = ggen = 0
         if replay:
             rp = json.load(open(replay))
+            if rp.get("scenario") == "sys":
+                import check_sys
+                if check_sys.replay(prop, rp, work):
+                    log("VIOLATION property=%s replay=%s" % (prop, replay))
+                    return 1
+                log("replay accepted")
+                return 0
             if rp.get("life"):
                 settings = []
             else:
@@ -204,6 +211,13 @@ def check_fifo(prop, tier, seed, replay):
                 return 1
             log("replay accepted")
             return 0
+        # thorough tier: free concurrent workloads validated against the composition Gorums.tla (Dequeue in queue
+        # order, SrvRecv in write order, HandlerStart in reception order with no unreleased handler)
+        syscov = None
+        if tier == "thorough":
+            import check_sys
+            syscov, sysbad = check_sys.phase(prop, tier, seed, work, reported)
+            allbad += sysbad
         cov = {"states": max(dstates, 1), "transitions": max(dtrans, 1),
                "traces_validated_against_impl": total_exec - allbad,
                "evaluations": total_exec, "distinct_nontrivial": nontriv,
@@ -215,6 +229,8 @@ def check_fifo(prop, tier, seed, replay):
                "trace_events": total_events, "trace_states": tstates, "send_buffers": settings,
                "stream_break_scenarios": nscen,
                "design_level": design}
+        if syscov:
+            cov["system_level_free_workloads"] = syscov
         write_evidence(prop, tier, seed, "model_checking", cov, time.time() - t0, allbad,
                        ["Before(c1,c2) is taken from the driver's StubRet/StubCall events (happens-before of one goroutine)",
                         "a premature handler start is rejected whenever it is recorded; the observation window only "
